@@ -219,13 +219,9 @@ Definition tracked (st : state) (w : list cred) : Prop :=
   | Armed _ fl => spec_run fl_empty w = Some fl
   end.
 
-Lemma expire_fs : forall st k st', expire st k = Some st' -> s_fs st' = Idle \/ st' = st.
+Lemma expire_fs : forall st c, s_fs (expire st c) = Idle.
 Proof.
-  intros st k st' H. unfold expire in H. destruct (s_fs st) as [|f fl] eqn:E.
-  - inversion H; auto.
-  - destruct (f =? 0).
-    + inversion H; auto.
-    + destruct (fget f (s_fabs st)); inversion H; auto.
+  intros st c. unfold expire. destruct (s_fs st) eqn:E; [exact E|reflexivity].
 Qed.
 
 (** operations that are not credential commands leave the flags alone, clear the context, or
@@ -245,11 +241,7 @@ Proof.
   all: try (destruct upd; discriminate).
   all: unfold step; try unfold complete_body.
   all: dm; cbn [fst]; sp; auto.
-  all: try match goal with
-       | H : expire _ _ = Some ?x |- _ =>
-         let H' := fresh in
-         pose proof (expire_fs _ _ _ H) as [H'|H']; [rewrite H' in *; try discriminate|subst x]
-       end.
+  all: try (rewrite expire_fs in *; discriminate).
   all: try match goal with H : s_fs ?s = _ |- _ => rewrite H in *; try discriminate end.
   all: try (inv_pair; reflexivity).
   all: try congruence.
